@@ -16,7 +16,8 @@ from sim.core.prng import digest, weighted
 
 DEFAULT_OPTIONS = {"strictness": "relaxed", "limit_rules": [], "limit_categories": [], "tta": True,
                    "tta_threshold": 0.65, "cutoff_mult": 1.0, "nbh_mult": 1.5,
-                   "tfbs": False, "tfbs_pvalue": 0.0005, "tfbs_range": 50}
+                   "tfbs": False, "tfbs_pvalue": 0.0005, "tfbs_range": 50,
+                   "rre": False, "rre_cutoff": 25.0, "rre_minlength": 50}
 HMM_KEYS = ("strictness", "limit_rules", "limit_categories", "cutoff_mult", "nbh_mult")
 SCHEMA_TARGETS = ["HMMDetectionResults", "RuleDetectionResults", "TTAResults", "NRPSPKSDomains", "SideloadedResults",
                   "AntismashResults"]
@@ -40,6 +41,11 @@ def option_args(options: Dict[str, Any], fungi: bool) -> List[str]:
              str(options.get("tfbs_range", 50))]
     if options.get("tfbs"):
         args += ["--tfbs"]
+    # likewise for RREFinder: cutoff and minimum length are settings whether or not the analysis is requested
+    args += ["--rre-cutoff", repr(float(options.get("rre_cutoff", 25.0))), "--rre-minlength",
+             str(options.get("rre_minlength", 50))]
+    if options.get("rre"):
+        args += ["--rre"]
     if fungi:
         args += ["--taxon", "fungi", "--hmmdetection-fungal-cutoff-multiplier", str(options["cutoff_mult"]),
                  "--hmmdetection-fungal-neighbourhood-multiplier", str(options["nbh_mult"])]
@@ -138,7 +144,8 @@ class ReuseHistory(Engine):
         from sim.engines.hashseed import ENGINE as HASHSEED
         from sim.engines.write_faults import ENGINE as WRITE_FAULTS, FAULT_KINDS
         base = HASHSEED._gen_pipeline(rng)  # pylint: disable=protected-access
-        toggles = [arg for arg in base["extra_args"] if arg in ("--clusterhmmer", "--fullhmmer", "--pfam2go", "--enable-t2pks", "--enable-terpene")]
+        toggles = [arg for arg in base["extra_args"] if arg in ("--clusterhmmer", "--fullhmmer", "--pfam2go", "--enable-t2pks", "--enable-terpene", "--tigrfam",
+                              "--enable-genefunctions")]
         scenario: Dict[str, Any] = {"records": base["records"], "hits": base["hits"], "domain_hits": base["domain_hits"],
                                     "domain_lengths": base["domain_lengths"], "fungi": rng.random() < 0.25,
                                     "toggles": toggles, "sideload_cli": base["sideload_cli"]}
@@ -160,6 +167,10 @@ class ReuseHistory(Engine):
         options["tta"] = rng.random() < 0.8
         options["tfbs"] = rng.random() < 0.4
         options["tfbs_pvalue"] = rng.choice([0.00001, 0.0005, 0.002])
+        if "--rre" in base["extra_args"]:
+            options["rre"] = rng.random() < 0.85
+            options["rre_cutoff"] = float(base["extra_args"][base["extra_args"].index("--rre-cutoff") + 1])
+            options["rre_minlength"] = int(base["extra_args"][base["extra_args"].index("--rre-minlength") + 1])
         steps = [{"options": copy.deepcopy(options), "salt": 0}]
         count = rng.randint(1, 4)
         for index in range(count):
@@ -170,7 +181,8 @@ class ReuseHistory(Engine):
             if kind == "change":
                 options = copy.deepcopy(options)
                 what = rng.choice(["strictness", "limit_rules", "limit_categories", "tta_threshold", "tta", "multipliers",
-                                   "tfbs", "tfbs_pvalue", "tfbs_range"])
+                                   "tfbs", "tfbs_pvalue", "tfbs_range"]
+                                  + (["rre", "rre_cutoff", "rre_minlength"] * 2 if "--rre" in base["extra_args"] else []))
                 if what == "strictness":
                     options["strictness"] = rng.choice([s for s in ("strict", "relaxed", "loose") if s != options["strictness"]])
                 elif what == "limit_rules":
@@ -187,6 +199,12 @@ class ReuseHistory(Engine):
                     options["tfbs_pvalue"] = rng.choice([p for p in (0.00001, 0.0005, 0.002) if p != options["tfbs_pvalue"]])
                 elif what == "tfbs_range":
                     options["tfbs_range"] = 120 if options["tfbs_range"] == 50 else 50
+                elif what == "rre":
+                    options["rre"] = not options["rre"]
+                elif what == "rre_cutoff":
+                    options["rre_cutoff"] = rng.choice([c for c in (24.0, 25.0, 30.0, 42.0) if c != options["rre_cutoff"]])
+                elif what == "rre_minlength":
+                    options["rre_minlength"] = rng.choice([n for n in (45, 50, 60, 75) if n != options["rre_minlength"]])
                 else:
                     options["cutoff_mult"] = rng.choice([1.0, 2.0])
                     options["nbh_mult"] = rng.choice([1.5, 1.0])
@@ -256,7 +274,8 @@ class ReuseHistory(Engine):
 EXPECTED_PROBES = ["reuse_unchanged_ok", "region_with_2_protoclusters", "nrps_pks_modules_present", "tta_codons_present",
                    "refusal_observed", "recompute_observed", "changed_options_equal_fresh", "schema_bump_discarded",
                    "foreign_record_discarded", "failed_invocation_in_history", "sideloaded_areas_present",
-                   "origin_spanning_protocluster", "tfbs_hits_present"]
+                   "origin_spanning_protocluster", "tfbs_hits_present", "rre_hits_present",
+                   "gene_function_hits_present", "tigrfam_hits_present"]
 
 
 def _load(path: str) -> Optional[Dict[str, Any]]:
@@ -296,7 +315,9 @@ class _History:
             inv["input"] = None
             inv["args"] = args + ["--reuse-results", os.path.join(outdir, "input.json")]
             inv["hits"] = []           # a reuse run that needs hmmsearch results finds none: recomputing is visible
-            inv["domain_hits"] = {}
+            # ... except for RREFinder, which by design discards stored results when its settings become more
+            # lenient (or it is requested for the first time) and searches again: hmmscan answers as it did before
+            inv["domain_hits"] = {"RREFam.hmm": sc["domain_hits"].get("RREFam.hmm", [])}
 
         def all_hooks(invocation: Dict[str, Any]) -> None:
             _recorder(invocation)
@@ -350,7 +371,7 @@ class _History:
                     self._judge_schema(step, result, regen, state)
                     break
                 changed = [key for key in step["options"] if step["options"][key] != good_options[key]]
-                if changed in (["tta"], ["tfbs"]) and not step["options"][changed[0]]:
+                if changed in (["tta"], ["tfbs"], ["rre"]) and not step["options"][changed[0]]:
                     changed = []      # an analysis is no longer requested: its stored results stay as they are
                 if not changed:
                     new_state = self._judge_unchanged(label, result, outdir, state, regen, runs)
@@ -398,6 +419,13 @@ class _History:
                 res.probe("tta_codons_present")
             if any(modules.get("antismash.modules.tfbs_finder", {}).get("hits_by_region", {}).values()):
                 res.probe("tfbs_hits_present")
+            if modules.get("antismash.modules.rrefinder", {}).get("hits_by_cds"):
+                res.probe("rre_hits_present")
+            if any(tool.get("best_hits") for tool in
+                   modules.get("antismash.detection.genefunctions", {}).get("tools", {}).values()):
+                res.probe("gene_function_hits_present")
+            if modules.get("antismash.detection.tigrfam", {}).get("hits"):
+                res.probe("tigrfam_hits_present")
             side = modules.get("antismash.detection.sideloader", {})
             if side.get("subregions") or side.get("protoclusters"):
                 res.probe("sideloaded_areas_present")
